@@ -637,6 +637,70 @@ func colliderSDFStage(r *ev.Run, n int) {
 	})
 }
 
+
+// ---- segments: Dist/Closest (Euclidean) and L1Dist/ClosestL1, every lattice segment x every lattice query ----
+//
+// L1 distance along a segment is piecewise linear in the parameter with kinks where a coordinate of the query
+// is reached, so the minimum over {0, 1, kink parameters} computed here is exact.
+func segmentStage(r *ev.Run) {
+	var lat []model3d.Coord3D
+	for x := -1; x <= 1; x++ {
+		for y := -1; y <= 1; y++ {
+			for z := -1; z <= 1; z++ {
+				lat = append(lat, model3d.XYZ(float64(x), float64(y)*0.5, float64(z)*2))
+			}
+		}
+	}
+	var qs []model3d.Coord3D
+	for x := -2; x <= 2; x++ {
+		for y := -2; y <= 2; y++ {
+			for z := -2; z <= 2; z++ {
+				qs = append(qs, model3d.XYZ(float64(x)*0.75, float64(y)*0.4+0.1, float64(z)*1.25-0.3))
+			}
+		}
+	}
+	ev.Parallel(len(lat), 16, func(i int) {
+		for j, b := range lat {
+			if i == j {
+				continue
+			}
+			a := lat[i]
+			seg := model3d.NewSegment(a, b)
+			v := b.Sub(a)
+			for _, q := range qs {
+				r.Eval(1)
+				c := sdfCase{fmt.Sprintf("Segment(%v,%v)", a, b), []float64{q.X, q.Y, q.Z}, "Segment"}
+				// Euclidean
+				t := math.Max(0, math.Min(1, q.Sub(a).Dot(v)/v.Dot(v)))
+				wantP := a.Add(v.Scale(t))
+				if got := seg.Closest(q); !(got.Dist(wantP) <= 1e-9) || !(math.Abs(seg.Dist(q)-wantP.Dist(q)) <= 1e-9) {
+					r.Violation("Segment/Closest", fmt.Sprintf("segment %v-%v, query %v: Closest=%v Dist=%g, reference %v at %g", a, b, q, got, seg.Dist(q), wantP, wantP.Dist(q)), c)
+				}
+				// L1
+				cands := []float64{0, 1}
+				va, qa := v.Array(), q.Sub(a).Array()
+				for k := 0; k < 3; k++ {
+					if va[k] != 0 {
+						if tk := qa[k] / va[k]; tk > 0 && tk < 1 {
+							cands = append(cands, tk)
+						}
+					}
+				}
+				best := math.Inf(1)
+				for _, tk := range cands {
+					best = math.Min(best, a.Add(v.Scale(tk)).L1Dist(q))
+				}
+				got := seg.ClosestL1(q)
+				onSeg := got.Dist(a)+got.Dist(b) <= a.Dist(b)+1e-9
+				if !onSeg || !(math.Abs(got.L1Dist(q)-best) <= 1e-9) || !(math.Abs(seg.L1Dist(q)-best) <= 1e-9) {
+					r.Violation("Segment/ClosestL1", fmt.Sprintf("segment %v-%v, query %v: ClosestL1=%v (on segment %v) at L1 distance %g, L1Dist=%g, the minimum L1 distance is %g", a, b, q, got, onSeg, got.L1Dist(q), seg.L1Dist(q), best), c)
+				}
+				r.NontrivialAdd(1)
+			}
+		}
+	})
+}
+
 func main() {
 	r := ev.Start("C06", "exploration")
 	th := r.Thorough()
@@ -654,6 +718,11 @@ func main() {
 		}
 		var c sdfCase
 		r.LoadReplay(&c)
+		if c.API == "Segment" {
+			segmentStage(r)
+			r.Sample(c)
+			r.Finish()
+		}
 		if c.API == "ColliderToSDF" {
 			colliderSDFStage(r, 6)
 			r.Sample(c)
@@ -705,5 +774,6 @@ func main() {
 	r.Isolate("profile", func() { checkProfile(r, n-2) })
 	r.Isolate("feature-points", func() { featureStage(r, th) })
 	r.Isolate("collider-sdf", func() { colliderSDFStage(r, (n+1)/2) })
+	r.Isolate("segments", func() { segmentStage(r) })
 	r.Finish()
 }
